@@ -158,6 +158,10 @@ func (s *SigBlob) VerifyPages(r io.Reader) error {
 		}
 		return nil
 	}
+	// the exponent comes from the file being verified; real ones are 12 or 14
+	if dir.Header.PageSizeLog2 > 20 {
+		return fmt.Errorf("unreasonably large page size 2^%d", dir.Header.PageSizeLog2)
+	}
 	pageSize := int64(1 << dir.Header.PageSizeLog2)
 	page := make([]byte, pageSize)
 	h := dir.HashFunc.New()
